@@ -216,6 +216,7 @@ pub fn classify(msg: &str) -> String {
 }
 
 pub fn quiet_panics() {
+    if std::env::var("RQH_SHOW_PANICS").is_ok() { std::panic::set_hook(Box::new(|i| { eprintln!("PANIC {}", i.to_string().replace('\n', " ")); })); return; }
     std::panic::set_hook(Box::new(|_| {}));
 }
 
